@@ -1,11 +1,943 @@
-//! C19 — not implemented yet (stub).
-use crate::engine::Ctx;
+//! C19 — DFT results obey the Gibbs adsorption relation and their reported derivatives.
+//!
+//! Parts:
+//! * `pore`   — generated pores: the profile is re-solved at neighbouring chemical potentials,
+//!   pressures and temperatures; -dOmega/dmu = N, dN/dmu = dn_dmu, dN/dp = dn_dp,
+//!   dN/dT = dn_dt, (partial molar) enthalpy of adsorption consistent with them.
+//! * `henry`  — Henry limit: moles()/p -> henry_coefficients(), and
+//!   ideal_gas_enthalpy_of_adsorption = R T (1 - dln(H R T)/dln T) by Ridders differentiation of
+//!   henry_coefficients of pores re-initialised at T +- h.
+//! * `planar` — surface tension independent of box length / resolution, decreasing in T and
+//!   vanishing towards T_c, pDGT within 8 % of DFT.
+use super::c18::{
+    debug, dft_t_scale, dft_tc, gen_dft_model, gen_pore, pore_init, pure_vle, rel, wall_ratio, worst, worst_json, ChainSpec, GeomSpec,
+    PoreSpec, Profile, StageSpec, WallSpec, MAX_POTENTIAL,
+};
+use crate::engine::{Ctx, Gen, Obs, PanicPolicy, PartCfg};
+use crate::model::*;
+use crate::oracle::ridders;
+use feos::core::{Components, Contributions, ReferenceSystem, State};
+use feos_dft::adsorption::PoreProfile1D;
+use feos_dft::interface::PlanarInterface;
+use feos_dft::PdgtFunctionalProperties;
+use ndarray::{Array1, Array2};
+use quantity::*;
+use serde::{Deserialize, Serialize};
 use serde_json::Value;
+use std::sync::Arc;
 
-pub fn run(_ctx: &Ctx) {
-    panic!("C19: check not implemented yet");
+// ---------------------------------------------------------------------------------------
+// Solvers used by the harness
+// ---------------------------------------------------------------------------------------
+/// first solve of a pore: Anderson (log) > Anderson; the result is then polished with Newton
+/// at the requested bulk state (Anderson mixing may move the bulk densities, finding
+/// C18/anderson-bulk-drift)
+fn coarse_chain(tol: f64) -> ChainSpec {
+    ChainSpec {
+        stages: vec![
+            StageSpec::Anderson { log: true, damping: 0.15, mmax: 100, max_iter: 100, tol: (1e4 * tol).max(1e-5_f64.min(1e6 * tol)) },
+            StageSpec::Anderson { log: false, damping: 0.15, mmax: 100, max_iter: 300, tol: 1e2 * tol },
+        ],
+    }
 }
 
-pub fn replay(_ctx: &Ctx, _part: &str, _case: &Value) -> bool {
-    panic!("C19: check not implemented yet");
+/// careful fallback for strongly adsorbing pores: heavily damped Picard steps in ln(rho) first
+fn careful_chain(tol: f64) -> ChainSpec {
+    ChainSpec {
+        stages: vec![
+            StageSpec::Picard { log: true, damping: Some(0.02), max_iter: 400, tol: 1e-3 },
+            StageSpec::Anderson { log: true, damping: 0.03, mmax: 10, max_iter: 300, tol: (1e4 * tol).max(1e-7) },
+            StageSpec::Anderson { log: false, damping: 0.05, mmax: 20, max_iter: 300, tol: 1e2 * tol },
+        ],
+    }
 }
+
+fn newton_chain(tol: f64) -> ChainSpec {
+    ChainSpec { stages: vec![StageSpec::Newton { log: false, max_iter: 30, gmres: 300, tol }] }
+}
+
+/// absolute tolerance of the polished profiles: 1e-9 of the bulk density, at most 1e-13
+fn polish_tol(bulk: &State<Model>) -> f64 {
+    let rb = bulk.partial_density.to_reduced().iter().cloned().fold(f64::INFINITY, f64::min);
+    (1e-9 * rb).min(1e-13)
+}
+
+pub struct Solved {
+    pub pore: PoreProfile1D<Model>,
+    n: Array1<f64>,
+    omega: f64,
+}
+
+/// solve `pore` at `bulk` starting from `density` (or from the ideal-gas guess), polished with
+/// Newton at exactly the requested bulk state
+pub fn solve_at(
+    pore: &PoreSpec,
+    bulk: &State<Model>,
+    density: Option<&Density<Array2<f64>>>,
+) -> Result<Solved, String> {
+    let tol = polish_tol(bulk);
+    let start: Density<Array2<f64>> = match density {
+        Some(d) => d.clone(),
+        None => {
+            let p0 = pore_init(bulk, pore, None)?;
+            let p = match p0.clone().solve(coarse_chain(tol).build().as_ref()) {
+                Ok(p) => p,
+                Err(_) => p0.solve(careful_chain(tol).build().as_ref()).map_err(|e| format!("coarse solve: {e}"))?,
+            };
+            p.profile.density.clone()
+        }
+    };
+    let p = pore_init(bulk, pore, Some(&start))?
+        .solve(newton_chain(tol).build().as_ref())
+        .map_err(|e| format!("newton: {e}"))?;
+    // Newton never touches the bulk densities
+    let a = bulk.partial_density.to_reduced();
+    let b = p.profile.bulk.partial_density.to_reduced();
+    if (0..a.len()).any(|i| rel(a[i], b[i]) > 1e-13) {
+        return Err("bulk state changed by a Newton solve".into());
+    }
+    let n = p.profile.moles().to_reduced();
+    let omega = p.grand_potential.map(|o| o.to_reduced()).unwrap_or(f64::NAN);
+    if !omega.is_finite() || n.iter().any(|x| !x.is_finite()) {
+        return Err("non-finite observables".into());
+    }
+    Ok(Solved { pore: p, n, omega })
+}
+
+/// reduced chemical potentials up to a function of T: mu_i = T ln rho_i + mu_res,i
+fn mu_of(bulk: &State<Model>) -> Array1<f64> {
+    let t = bulk.temperature.to_reduced();
+    let rho = bulk.partial_density.to_reduced();
+    let mur = bulk.residual_chemical_potential().to_reduced();
+    Array1::from_shape_fn(rho.len(), |i| t * rho[i].ln() + mur[i])
+}
+
+// ---------------------------------------------------------------------------------------
+// Part `pore`
+// ---------------------------------------------------------------------------------------
+#[derive(Serialize, Deserialize, Clone, Debug)]
+pub struct PoreCase {
+    pub spec: ModelSpec,
+    /// T / sum x_i T_c,i
+    pub tau: f64,
+    /// sub-critical: bulk density / saturated vapour density of the least volatile component;
+    /// super-critical: bulk density / (0.3 x critical density)
+    pub f_rho: f64,
+    pub x: Vec<f64>,
+    pub pore: PoreSpec,
+    /// relative step of the finite differences
+    pub h: f64,
+}
+
+pub fn gen_pore_case(g: &mut Gen) -> PoreCase {
+    let spec = gen_dft_model(
+        g,
+        &[Family::PetsFunctional, Family::PcSaftFunctional, Family::GcPcSaftFunctional, Family::SaftVRQMieFunctional],
+        2,
+    );
+    PoreCase {
+        tau: g.range(0.6, 1.5),
+        f_rho: g.range(0.05, 0.6),
+        x: g.simplex(spec.n(), 0.1),
+        pore: gen_pore(g, &[256, 512, 256, 1024]),
+        h: g.pick(&[1e-3, 2e-3, 5e-4]),
+        spec,
+    }
+}
+
+/// bulk vapour / supercritical gas of a pore case
+pub fn pore_case_bulk(spec: &ModelSpec, model: &Arc<Model>, tau: f64, f_rho: f64, x: &[f64]) -> Result<State<Model>, String> {
+    let t = tau * dft_t_scale(spec, model, x)?;
+    // reference density: the smallest saturated vapour density among the sub-critical
+    // components, 0.3 x smallest critical density if there is none
+    let mut rho_ref = f64::INFINITY;
+    for i in 0..spec.n() {
+        let tc = dft_tc(spec, model, i)?;
+        let sub = if spec.n() == 1 { model.clone() } else { Arc::new(model.subset(&[i])) };
+        let r = if t < 0.98 * tc {
+            pure_vle(&sub, t)?.vapor().density.to_reduced()
+        } else {
+            let cp = State::critical_point(&sub, None, None, Default::default()).map_err(|e| e.to_string())?;
+            0.3 * cp.density.to_reduced()
+        };
+        rho_ref = rho_ref.min(r);
+    }
+    let rho = f_rho * rho_ref;
+    let moles = Moles::from_reduced(Array1::from_vec(x.to_vec()));
+    let bulk = State::new_nvt(model, t * KELVIN, Volume::from_reduced(1.0 / rho), &moles).map_err(|e| format!("bulk: {e}"))?;
+    if bulk.dp_dv(Contributions::Total).to_reduced() >= 0.0 {
+        return Err("bulk mechanically unstable".into());
+    }
+    if spec.n() > 1 && !bulk.is_stable(Default::default()).map_err(|e| format!("stability: {e}"))? {
+        return Err("bulk unstable".into());
+    }
+    Ok(bulk)
+}
+
+/// verdict of a finite-difference comparison: `ana` analytic value, `d1` central difference with
+/// step h, `d2` with step h/2. Richardson value (4 d2 - d1)/3 with error estimate |d2 - d1|/3.
+fn fd_verdict(obs: &mut Obs, what: &str, ana: f64, d1: f64, d2: f64, scale: f64, rtol: f64) -> bool {
+    fd_verdict_known(obs, what, ana, d1, d2, scale, rtol, None).is_some()
+}
+
+/// as `fd_verdict`; a mismatch is routed to the known finding `known` (if given). Returns the
+/// relative deviation of a conclusive comparison; `assert = false` only measures.
+fn fd_verdict_known(obs: &mut Obs, what: &str, ana: f64, d1: f64, d2: f64, scale: f64, rtol: f64, known: Option<&str>) -> Option<f64> {
+    let d = (4.0 * d2 - d1) / 3.0;
+    let err = (d2 - d1).abs() / 3.0;
+    let s = scale.max(ana.abs()).max(d.abs());
+    if !(err <= 0.2 * rtol * s) || !d.is_finite() {
+        obs.inconclusive(format!("{}: step-size error", what.split(' ').next().unwrap()));
+        return None;
+    }
+    obs.count();
+    worst(&format!("{}: |analytic - numeric| / scale", what.split(' ').next().unwrap()), (ana - d).abs() / s);
+    if debug() {
+        eprintln!("DBG fd {what} rel={:.3e}", (ana - d).abs() / s);
+    }
+    if !((ana - d).abs() <= rtol * s + 10.0 * err) {
+        let msg = format!("{what}: analytic {ana:e} vs re-solved {d:e} (h: {d1:e}, h/2: {d2:e}, scale {s:e}, rtol {rtol:e})");
+        match known {
+            Some(id) => obs.known_or_fail(id, msg),
+            None => obs.fail(msg),
+        }
+    }
+    Some((ana - d).abs() / s)
+}
+
+/// `density_derivative` solves the linear response with GMRES to an *absolute* residual of 1e-13
+/// (profile/properties.rs:294); for dilute profiles the right-hand sides (rho_k, rho v_k,
+/// rho x O(1/T)) are themselves that small and the solve stops early
+pub const GMRES: &str = "C19/gmres-absolute-tolerance";
+/// dn_dt (and the enthalpies of adsorption) are NaN: drho_dt evaluates the functional with dual
+/// numbers on the whole grid, including the wall region where the weighted densities are FFT
+/// noise around zero (0/0 in the AntiSymWhiteBear FMT, infinite slopes at zero elsewhere)
+pub const ANTISYM: &str = "C19/nan-temperature-derivative";
+/// cylindrical pores: the polar (Hankel-type) convolver is not the adjoint of itself to better
+/// than 1e-3: -dOmega/dmu and N differ by a plateau that does not vanish with the resolution
+pub const POLAR: &str = "C19/polar-gibbs-plateau";
+
+/// DESIGN: 1e-4; doubled to keep a factor 50 over the worst value measured on non-dilute
+/// profiles (3.7e-6 over 20 seeds)
+const RTOL_FD: f64 = 2e-4;
+
+pub fn check_pore(case: &PoreCase, obs: &mut Obs) {
+    let spec = &case.spec;
+    obs.class(spec.label());
+    obs.class(case.pore.label());
+    obs.class(format!("n={}", spec.n()));
+    let model = match spec.build() {
+        Ok(m) => m,
+        Err(e) => return obs.discard(format!("build:{}", e.chars().take(30).collect::<String>())),
+    };
+    let bulk = match pore_case_bulk(spec, &model, case.tau, case.f_rho, &case.x) {
+        Ok(b) => b,
+        Err(e) => return obs.discard(format!("bulk:{}", e.chars().take(30).collect::<String>())),
+    };
+    obs.class(if case.tau < 1.0 { "T<Tc" } else { "T>Tc" });
+    obs.class(if spec.has_association() { "assoc" } else { "non-assoc" });
+    let nc = spec.n();
+    let t = bulk.temperature.to_reduced();
+    let rho0 = bulk.partial_density.to_reduced();
+    let p0 = bulk.pressure(Contributions::Total).to_reduced();
+    let x = bulk.molefracs.clone();
+    let s0 = match solve_at(&case.pore, &bulk, None) {
+        Ok(s) => s,
+        Err(e) => return obs.discard(format!("reference solve:{}", e.chars().take(30).collect::<String>())),
+    };
+    let dens0 = s0.pore.profile.density.clone();
+    // real adsorption: excess over the bulk density in the accessible volume
+    let vol = {
+        let mut one = Array2::zeros(s0.pore.profile.external_potential.raw_dim());
+        for (o, v) in one.iter_mut().zip(s0.pore.profile.external_potential.iter()) {
+            if *v + 1e-9 < MAX_POTENTIAL {
+                *o = 1.0;
+            }
+        }
+        s0.pore.profile.integrate_comp(&Density::from_reduced(one)).to_reduced()[0]
+    };
+    let excess = (0..nc).map(|i| (s0.n[i] - rho0[i] * vol).abs() / s0.n[i]).fold(0.0, f64::max);
+    obs.class(if excess > 0.1 { "excess>10%" } else { "excess<=10%" });
+
+    // analytic derivatives of the library
+    let (dn_dmu, dn_dp, dn_dt) = match (s0.pore.profile.dn_dmu(), s0.pore.profile.dn_dp(), s0.pore.profile.dn_dt()) {
+        (Ok(a), Ok(b), Ok(c)) => (a.to_reduced(), b.to_reduced(), c.to_reduced()),
+        _ => return obs.discard("linear response (GMRES) failed"),
+    };
+    // signature of GMRES: 2-norm of the profile (the right-hand side of dn_dmu) below 1e-4, i.e.
+    // the absolute tolerance 1e-13 is coarser than 1e-9 relative
+    let rho_norm = s0.pore.profile.density.to_reduced().iter().map(|r| r * r).sum::<f64>().sqrt();
+    let dilute = rho_norm < 1e-4;
+    obs.class(if dilute { "dilute (|rho|_2 < 1e-4)" } else { "not dilute" });
+    let known_lr: Option<&str> = if dilute { Some(GMRES) } else { None };
+    if dn_dmu.iter().chain(dn_dp.iter()).chain(dn_dt.iter()).any(|v| !v.is_finite()) {
+        let msg = format!("non-finite derivative of a converged profile: dn_dmu {dn_dmu}, dn_dp {dn_dp}, dn_dt {dn_dt}");
+        // signature of NAN_DERIV: the profile has points at the potential cut-off (walls), where
+        // the weighted densities are FFT noise around zero
+        if s0.pore.profile.external_potential.iter().any(|v| *v + 1e-9 >= MAX_POTENTIAL) {
+            obs.known_or_fail(ANTISYM, msg);
+        } else {
+            obs.fail(msg);
+        }
+        return;
+    }
+
+    // neighbour states
+    let h = case.h;
+    let mk_nvt = |rho: &Array1<f64>| -> Result<State<Model>, String> {
+        let tot: f64 = rho.sum();
+        State::new_nvt(&model, bulk.temperature, Volume::from_reduced(1.0), &Moles::from_reduced(rho.clone()))
+            .map_err(|e| e.to_string())
+            .and_then(|s| if tot > 0.0 { Ok(s) } else { Err("empty".into()) })
+    };
+    // state at (T, p, x) on the branch of the reference state: Newton on the density to a relative
+    // pressure error of 1e-14 (the library's density iteration stops at an absolute pressure
+    // error of 1e-12 K/A^3, which is 10 % of the pressure of a very dilute vapour)
+    let mk_npt = |tt: f64, pp: f64| -> Result<State<Model>, String> {
+        let mut rho = bulk.density.to_reduced() * t / tt * pp / p0;
+        let mut last = None;
+        for _ in 0..60 {
+            let s = State::new_nvt(
+                &model,
+                Temperature::from_reduced(tt),
+                Volume::from_reduced(1.0 / rho),
+                &Moles::from_reduced(x.clone()),
+            )
+            .map_err(|e| e.to_string())?;
+            let err = s.pressure(Contributions::Total).to_reduced() - pp;
+            let dpdrho = s.dp_drho(Contributions::Total).to_reduced();
+            if !(dpdrho > 0.0) {
+                return Err("npt neighbour unstable".into());
+            }
+            let done = err.abs() <= 1e-14 * pp.abs();
+            last = Some(s);
+            if done {
+                break;
+            }
+            rho -= err / dpdrho;
+            if !(rho > 0.0) {
+                return Err("npt neighbour: negative density".into());
+            }
+        }
+        let s = last.ok_or("npt")?;
+        if ((s.pressure(Contributions::Total).to_reduced() - pp) / pp).abs() > 1e-12 {
+            return Err("npt neighbour not converged".into());
+        }
+        if (s.density.to_reduced() / bulk.density.to_reduced() - 1.0).abs() < 0.1 {
+            Ok(s)
+        } else {
+            Err("npt neighbour on another branch".into())
+        }
+    };
+    // solve at a neighbour, starting from the reference density
+    let at = |b: Result<State<Model>, String>| -> Option<(State<Model>, Solved)> {
+        let b = b.ok()?;
+        let s = solve_at(&case.pore, &b, Some(&dens0)).ok()?;
+        Some((b, s))
+    };
+    // smoothness guard: second difference small against the first (no capillary condensation /
+    // branch switch between the neighbours)
+    let smooth = |m: &Solved, p: &Solved| -> bool {
+        (0..nc).all(|i| {
+            let first = (p.n[i] - m.n[i]).abs();
+            let second = (p.n[i] - 2.0 * s0.n[i] + m.n[i]).abs();
+            second <= 0.2 * first + 1e-9 * s0.n[i]
+        })
+    };
+
+    let mut conclusive = 0;
+    // ---- (a), (b): chemical potential directions: scale the bulk density of component k
+    for k in 0..nc {
+        let dir = |f: f64| {
+            let mut r = rho0.clone();
+            r[k] *= 1.0 + f;
+            mk_nvt(&r)
+        };
+        let (Some(p1), Some(m1), Some(p2), Some(m2)) = (at(dir(h)), at(dir(-h)), at(dir(0.5 * h)), at(dir(-0.5 * h))) else {
+            obs.inconclusive("mu: neighbour solve failed");
+            continue;
+        };
+        if !smooth(&m1.1, &p1.1) {
+            obs.inconclusive("mu: non-smooth (branch switch)");
+            continue;
+        }
+        let dmu1 = mu_of(&p1.0) - mu_of(&m1.0);
+        let dmu2 = mu_of(&p2.0) - mu_of(&m2.0);
+        // Gibbs adsorption: dOmega = -sum_i N_i dmu_i. Compare per unit of the driving dmu_k.
+        let ga = -(0..nc).map(|i| s0.n[i] * dmu1[i]).sum::<f64>() / dmu1[k];
+        let ga2 = -(0..nc).map(|i| s0.n[i] * dmu2[i]).sum::<f64>() / dmu2[k];
+        let d1 = (p1.1.omega - m1.1.omega) / dmu1[k];
+        let d2 = (p2.1.omega - m2.1.omega) / dmu2[k];
+        // the analytic side depends (weakly) on the step through dmu_i/dmu_k: use the h/2 value
+        let _ = ga;
+        let label = format!("gibbs[{:?}] -dOmega/dmu[{k}] = N", case.pore.geom);
+        if case.pore.geom == GeomSpec::Slit {
+            if fd_verdict(obs, &label, ga2, d1, d2, s0.n.sum(), RTOL_FD) {
+                conclusive += 1;
+            }
+        } else {
+            // Curved geometries: the discrete convolutions are not exact adjoints, the relation
+            // holds up to a discretisation error (first order in the grid spacing for spheres).
+            // Asserted: the deviation is below 1e-4 or shrinks by at least 35 % when the grid is
+            // refined by a factor 2.
+            let d = (4.0 * d2 - d1) / 3.0;
+            let err = (d2 - d1).abs() / 3.0;
+            let sc = s0.n.sum();
+            if !(err <= 0.2 * RTOL_FD * sc) || !d.is_finite() {
+                obs.inconclusive("gibbs: step-size error");
+            } else {
+                let dev1 = (ga2 - d).abs() / sc;
+                worst(&format!("gibbs[{:?}]: deviation / N", case.pore.geom), dev1);
+                conclusive += 1;
+                obs.count();
+                if dev1 > RTOL_FD && k == 0 && case.pore.n_grid <= 1024 {
+                    let mut fine = case.pore.clone();
+                    fine.n_grid *= 2;
+                    let dev2 = (|| -> Option<f64> {
+                        let r0 = solve_at(&fine, &bulk, None).ok()?;
+                        let dens = r0.pore.profile.density.clone();
+                        let bp = dir(0.5 * h).ok()?;
+                        let bm = dir(-0.5 * h).ok()?;
+                        let sp = solve_at(&fine, &bp, Some(&dens)).ok()?;
+                        let sm = solve_at(&fine, &bm, Some(&dens)).ok()?;
+                        let dmu = mu_of(&bp) - mu_of(&bm);
+                        let ga = -(0..nc).map(|i| r0.n[i] * dmu[i]).sum::<f64>() / dmu[k];
+                        let dd = (sp.omega - sm.omega) / dmu[k];
+                        Some((ga - dd).abs() / r0.n.sum())
+                    })();
+                    match dev2 {
+                        None => obs.inconclusive("gibbs: refined solve failed"),
+                        Some(dev2) => {
+                            worst(&format!("gibbs[{:?}]: deviation(2n) / deviation(n)", case.pore.geom), dev2 / dev1);
+                            obs.class(format!("gibbs refined [{:?}]", case.pore.geom));
+                            if !(dev2 <= (0.65 * dev1).max(RTOL_FD)) {
+                                let msg = format!(
+                                    "{label}: relative deviation {dev1:e} at {} points, {dev2:e} at {} points: does not vanish with the resolution",
+                                    case.pore.n_grid, fine.n_grid
+                                );
+                                if case.pore.geom == GeomSpec::Cylinder {
+                                    obs.known_or_fail(POLAR, msg);
+                                } else {
+                                    obs.fail(msg);
+                                }
+                            }
+                        }
+                    }
+                }
+            }
+        }
+        // dN_i = sum_j dn_dmu[j][i] dmu_j
+        for i in 0..nc {
+            let pred = |dmu: &Array1<f64>| (0..nc).map(|j| dn_dmu[[j, i]] * dmu[j]).sum::<f64>() / dmu[k];
+            let d1 = (p1.1.n[i] - m1.1.n[i]) / dmu1[k];
+            let d2 = (p2.1.n[i] - m2.1.n[i]) / dmu2[k];
+            // entries of dn_dmu are accurate relative to the dominant response of N_i (GMRES tolerance)
+            let scale = (0..nc).map(|j| (dn_dmu[[j, i]] * dmu2[j] / dmu2[k]).abs()).sum::<f64>().max(dn_dmu[[i, i]].abs());
+            if fd_verdict_known(obs, &format!("dn_dmu[{:?}] dN[{i}]/dmu[{k}]", case.pore.geom), pred(&dmu2), d1, d2, scale, RTOL_FD, known_lr).is_some() {
+                conclusive += 1;
+            }
+        }
+    }
+    // Maxwell symmetry of dn_dmu
+    for i in 0..nc {
+        for j in i + 1..nc {
+            let s = dn_dmu[[i, i]].abs().max(dn_dmu[[j, j]].abs());
+            worst(&format!("dn_dmu[{:?}] asymmetry / scale", case.pore.geom), (dn_dmu[[i, j]] - dn_dmu[[j, i]]).abs() / s);
+            // exact for the cartesian convolver (measured <= 2e-7 of the diagonal, 1e-5 allowed); in curved geometries a
+            // discretisation effect of the same origin as the Gibbs deviation (statistic only)
+            if case.pore.geom == GeomSpec::Slit && !dilute {
+                obs.close_scaled(&format!("dn_dmu symmetric [{i},{j}]"), dn_dmu[[i, j]], dn_dmu[[j, i]], 1e-5, s);
+            }
+        }
+    }
+    // ---- (c): pressure at fixed T, x
+    {
+        let dir = |f: f64| mk_npt(t, p0 * (1.0 + f));
+        if let (Some(p1), Some(m1), Some(p2), Some(m2)) = (at(dir(h)), at(dir(-h)), at(dir(0.5 * h)), at(dir(-0.5 * h))) {
+            if smooth(&m1.1, &p1.1) {
+                for i in 0..nc {
+                    let d1 = (p1.1.n[i] - m1.1.n[i]) / (2.0 * h * p0);
+                    let d2 = (p2.1.n[i] - m2.1.n[i]) / (h * p0);
+                    if fd_verdict_known(obs, &format!("dn_dp[{:?}] dN[{i}]/dp", case.pore.geom), dn_dp[i], d1, d2, s0.n[i] / p0 * 1e-2, RTOL_FD, known_lr).is_some() {
+                        conclusive += 1;
+                    }
+                }
+            } else {
+                obs.inconclusive("p: non-smooth (branch switch)");
+            }
+        } else {
+            obs.inconclusive("p: neighbour solve failed");
+        }
+    }
+    // ---- (d): temperature at fixed p, x (the pore is re-initialised: V_ext/kT and the
+    // temperature-dependent diameters change)
+    let mut dndt_fd: Option<Array1<f64>> = None;
+    {
+        let dir = |f: f64| mk_npt(t * (1.0 + f), p0);
+        if let (Some(p1), Some(m1), Some(p2), Some(m2)) = (at(dir(h)), at(dir(-h)), at(dir(0.5 * h)), at(dir(-0.5 * h))) {
+            if smooth(&m1.1, &p1.1) {
+                let mut fd = Array1::zeros(nc);
+                let mut all = true;
+                for i in 0..nc {
+                    let d1 = (p1.1.n[i] - m1.1.n[i]) / (2.0 * h * t);
+                    let d2 = (p2.1.n[i] - m2.1.n[i]) / (h * t);
+                    fd[i] = (4.0 * d2 - d1) / 3.0;
+                    if fd_verdict_known(obs, &format!("dn_dt[{:?}{}] dN[{i}]/dT", case.pore.geom, if dilute { ",dilute" } else { "" }), dn_dt[i], d1, d2, s0.n[i] / t * 1e-2, RTOL_FD, known_lr).is_some() {
+                        conclusive += 1;
+                    } else {
+                        all = false;
+                    }
+                }
+                if all {
+                    dndt_fd = Some(fd);
+                }
+            } else {
+                obs.inconclusive("T: non-smooth (branch switch)");
+            }
+        } else {
+            obs.inconclusive("T: neighbour solve failed");
+        }
+    }
+    // ---- (e): enthalpy of adsorption: dn_dmu h = -T dn_dt, and its x-weighted sum
+    match (s0.pore.partial_molar_enthalpy_of_adsorption(), s0.pore.enthalpy_of_adsorption()) {
+        (Ok(hp), Ok(ht)) => {
+            let hp = hp.to_reduced();
+            let ht = ht.to_reduced();
+            // defining linear system with the library's own (separately validated) derivatives
+            for i in 0..nc {
+                // row i of dn_dmu^T h: sum_j dn_dmu[i][j] h_j  (LU::new(a).solve(b) solves a h = b)
+                let lhs: f64 = (0..nc).map(|j| dn_dmu[[i, j]] * hp[j]).sum();
+                let scale: f64 = (0..nc).map(|j| (dn_dmu[[i, j]] * hp[j]).abs()).sum::<f64>() + (t * dn_dt[i]).abs();
+                worst("enthalpy system residual / scale", (lhs + t * dn_dt[i]).abs() / scale);
+                obs.close_scaled(&format!("dn_dmu h = -T dn_dt, row {i}"), lhs, -t * dn_dt[i], 1e-9, scale);
+            }
+            let sum: f64 = (0..nc).map(|i| x[i] * hp[i]).sum();
+            obs.close_scaled("enthalpy_of_adsorption = sum x_i h_i", ht, sum, 1e-12, (0..nc).map(|i| (x[i] * hp[i]).abs()).sum());
+            // pure: against the re-solved derivatives only
+            if nc == 1 {
+                if let Some(fd) = &dndt_fd {
+                    let h_fd = -t * fd[0] / dn_dmu[[0, 0]];
+                    worst("enthalpy (pure) vs re-solved dN/dT / scale", (hp[0] - h_fd).abs() / hp[0].abs().max(t));
+                    obs.count();
+                    if (hp[0] - h_fd).abs() > 3e-4 * hp[0].abs().max(t) {
+                        let msg = format!("partial molar enthalpy of adsorption (pure) {:e} vs -T (dN/dT)_resolved / dn_dmu = {h_fd:e}", hp[0]);
+                        match known_lr {
+                            Some(id) => obs.known_or_fail(id, msg),
+                            None => obs.fail(msg),
+                        }
+                    }
+                }
+            }
+        }
+        _ => obs.class("enthalpy of adsorption: Err"),
+    }
+    if conclusive >= 3 {
+        obs.class("conclusive>=3");
+        if excess > 0.1 {
+            obs.nontrivial();
+        }
+    }
+}
+
+// ---------------------------------------------------------------------------------------
+// Part `henry`
+// ---------------------------------------------------------------------------------------
+#[derive(Serialize, Deserialize, Clone, Debug)]
+pub struct HenryCase {
+    pub spec: ModelSpec,
+    pub tau: f64,
+    pub x: Vec<f64>,
+    pub pore: PoreSpec,
+    /// dilution: max local density / reference density
+    pub eps: f64,
+}
+
+/// `henry_coefficients` panics by design unless every m_i = 1 (spherical or heterosegmented)
+fn spherical_or_hetero(spec: &ModelSpec) -> bool {
+    match spec.family {
+        Family::PcSaftFunctional => spec.pure.iter().all(|p| p["model_record"]["m"].as_f64() == Some(1.0)),
+        _ => true,
+    }
+}
+
+pub fn gen_henry_case(g: &mut Gen) -> HenryCase {
+    let fam = g.pick(&[Family::PetsFunctional, Family::GcPcSaftFunctional, Family::PcSaftFunctional, Family::SaftVRQMieFunctional]);
+    let mut spec = gen_dft_model(g, &[fam], 2);
+    if fam == Family::PcSaftFunctional {
+        // spherical PC-SAFT molecules: shipped / random records with m set to 1
+        for p in spec.pure.iter_mut() {
+            p["model_record"]["m"] = serde_json::json!(1.0);
+        }
+        spec.source = format!("m=1:{}", spec.source);
+    }
+    HenryCase {
+        tau: g.range(0.6, 1.5),
+        x: g.simplex(spec.n(), 0.1),
+        pore: gen_pore(g, &[256, 512, 1024]),
+        eps: g.log_range(1e-9, 1e-7),
+        spec,
+    }
+}
+
+pub fn check_henry(case: &HenryCase, obs: &mut Obs) {
+    let spec = &case.spec;
+    obs.class(spec.label());
+    obs.class(case.pore.label());
+    obs.class(format!("n={}", spec.n()));
+    if !spherical_or_hetero(spec) {
+        return obs.discard("not spherical / heterosegmented");
+    }
+    let model = match spec.build() {
+        Ok(m) => m,
+        Err(e) => return obs.discard(format!("build:{}", e.chars().take(30).collect::<String>())),
+    };
+    let nc = spec.n();
+    let tscale = match dft_t_scale(spec, &model, &case.x) {
+        Ok(t) => t,
+        Err(e) => return obs.discard(format!("tc:{e}")),
+    };
+    let t = case.tau * tscale;
+    let moles = Moles::from_reduced(Array1::from_vec(case.x.clone()));
+    let bulk_at = |tt: f64, rho: f64| -> Result<State<Model>, String> {
+        State::new_nvt(&model, tt * KELVIN, Volume::from_reduced(1.0 / rho), &moles).map_err(|e| e.to_string())
+    };
+    // dilution: bulk density such that the largest Boltzmann-weighted density stays below eps x 1e-3 / A^3
+    let probe = match bulk_at(t, 1e-12).and_then(|b| pore_init(&b, &case.pore, None)) {
+        Ok(p) => p,
+        Err(e) => return obs.discard(format!("init:{}", e.chars().take(30).collect::<String>())),
+    };
+    let vmin = probe.profile.external_potential.iter().cloned().fold(f64::INFINITY, f64::min);
+    let m_hetero = probe.profile.density.shape()[0] as f64 / nc as f64;
+    // a heterosegmented molecule collects the wells of all its segments
+    let rho_b = case.eps * 1e-3 * (vmin.min(0.0) * m_hetero.max(1.0)).exp();
+    let bulk = match bulk_at(t, rho_b) {
+        Ok(b) => b,
+        Err(e) => return obs.discard(format!("bulk:{}", e.chars().take(30).collect::<String>())),
+    };
+    let pore0 = match pore_init(&bulk, &case.pore, None) {
+        Ok(p) => p,
+        Err(e) => return obs.discard(format!("init:{}", e.chars().take(30).collect::<String>())),
+    };
+    let hc = pore0.henry_coefficients().to_reduced();
+    if hc.iter().any(|h| !h.is_finite() || *h <= 0.0) {
+        return obs.fail(format!("henry_coefficients not finite / positive: {hc}"));
+    }
+    // ---- N / p_i -> H_i. Henry's law is a limit: the bulk density is lowered by factors 1e-4
+    // until N/(x p) stops changing (association and adsorbate-adsorbate attraction in deep wells
+    // persist to very low densities). The solver tolerance is absolute, so it is scaled with
+    // the bulk density to resolve the dilute profile.
+    let solve_ratio = |rho: f64| -> Result<(Array1<f64>, bool), String> {
+        let b = bulk_at(t, rho)?;
+        let p0 = pore_init(&b, &case.pore, None)?;
+        let rb_min = b.partial_density.to_reduced().iter().cloned().fold(f64::INFINITY, f64::min);
+        let tol = 1e-9 * rb_min;
+        let chain = ChainSpec {
+            stages: vec![
+                StageSpec::Picard { log: false, damping: Some(1.0), max_iter: 50, tol },
+                StageSpec::Newton { log: false, max_iter: 10, gmres: 100, tol },
+            ],
+        };
+        let p = p0.solve(chain.build().as_ref()).map_err(|e| e.to_string())?;
+        let n = p.profile.moles().to_reduced();
+        let pr = p.profile.bulk.pressure(Contributions::Total).to_reduced();
+        let xb = p.profile.bulk.molefracs.clone();
+        let vol = {
+            let mut one = Array2::zeros(p.profile.external_potential.raw_dim());
+            for (o, v) in one.iter_mut().zip(p.profile.external_potential.iter()) {
+                if *v + 1e-9 < MAX_POTENTIAL {
+                    *o = 1.0;
+                }
+            }
+            p.profile.integrate_comp(&Density::from_reduced(one)).to_reduced()[0]
+        };
+        let rho0 = p.profile.bulk.partial_density.to_reduced();
+        let excess = (0..nc).any(|i| (n[i] - rho0[i] * vol).abs() > 0.1 * n[i]);
+        Ok((Array1::from_shape_fn(nc, |i| n[i] / (xb[i] * pr)), excess))
+    };
+    let mut prev: Option<Array1<f64>> = None;
+    let mut limit: Option<(Array1<f64>, bool)> = None;
+    let mut rho = rho_b;
+    for _ in 0..4 {
+        match solve_ratio(rho) {
+            Err(e) => {
+                obs.class(format!("solve err:{}", e.chars().take(24).collect::<String>()));
+                break;
+            }
+            Ok((r, ex)) => {
+                if let Some(p) = &prev {
+                    if (0..nc).all(|i| rel(r[i], p[i]) < 1e-6) {
+                        limit = Some((r, ex));
+                        break;
+                    }
+                }
+                prev = Some(r);
+                rho *= 1e-4;
+            }
+        }
+    }
+    match limit {
+        None => obs.inconclusive("henry: N/p did not become independent of p"),
+        Some((r, ex)) => {
+            for i in 0..nc {
+                worst("henry: |N/(x p) - H| / H", rel(r[i], hc[i]));
+                obs.close(&format!("Henry limit N[{i}]/(x p) = henry_coefficients"), r[i], hc[i], 1e-4, 0.0);
+            }
+            if ex {
+                obs.class("excess>10%");
+                obs.nontrivial();
+            }
+        }
+    }
+    // ---- ideal-gas enthalpy of adsorption against d ln(H T)/dT by Ridders
+    let q = pore0.ideal_gas_enthalpy_of_adsorption().to_reduced();
+    for i in 0..nc {
+        let f = |tt: f64| -> Option<f64> {
+            let b = bulk_at(tt, rho_b).ok()?;
+            let p = pore_init(&b, &case.pore, None).ok()?;
+            let h = p.henry_coefficients().to_reduced()[i];
+            if h.is_finite() && h > 0.0 {
+                Some((h * tt).ln())
+            } else {
+                None
+            }
+        };
+        match ridders(f, t, 2e-2 * t) {
+            None => obs.inconclusive("henry: neighbour failed"),
+            Some((d, err)) => {
+                // q_i = T (1 - T dln(H T)/dT)
+                let q_num = t * (1.0 - t * d);
+                let q_err = t * t * err;
+                let s = q[i].abs().max(t);
+                if q_err > 1e-6 * s {
+                    obs.inconclusive("henry: Ridders error");
+                } else {
+                    worst("henry: |q_ig - numeric| / scale", (q[i] - q_num).abs() / s);
+                    obs.count();
+                    if (q[i] - q_num).abs() > 1e-5 * s + 50.0 * q_err {
+                        obs.fail(format!(
+                            "ideal_gas_enthalpy_of_adsorption[{i}] = {:e} but T(1 - T dln(H T)/dT) = {q_num:e} (Ridders error {q_err:e})",
+                            q[i]
+                        ));
+                    }
+                }
+            }
+        }
+    }
+}
+
+// ---------------------------------------------------------------------------------------
+// Part `planar`
+// ---------------------------------------------------------------------------------------
+#[derive(Serialize, Deserialize, Clone, Debug)]
+pub enum PlanarKind {
+    /// same interface in two boxes
+    Size { tau: f64, l1: f64, n1: usize, l2: f64, n2: usize },
+    /// gamma(T) on a 6-point grid and at 0.97 T_c
+    Temperature,
+    /// pDGT against DFT
+    Pdgt { tau: f64 },
+}
+
+#[derive(Serialize, Deserialize, Clone, Debug)]
+pub struct PlanarCase {
+    pub spec: ModelSpec,
+    pub kind: PlanarKind,
+}
+
+pub fn gen_planar_case(g: &mut Gen) -> PlanarCase {
+    let kind_idx = g.index(4);
+    let fams: &[Family] = if kind_idx == 3 {
+        // pDGT is implemented for molecular (non-heterosegmented) functionals of pure components
+        &[Family::PcSaftFunctional, Family::PetsFunctional, Family::SaftVRQMieFunctional]
+    } else {
+        &[Family::PcSaftFunctional, Family::PetsFunctional, Family::GcPcSaftFunctional, Family::SaftVRQMieFunctional]
+    };
+    let spec = gen_dft_model(g, fams, 1);
+    let kind = match kind_idx {
+        0 | 1 => PlanarKind::Size {
+            tau: g.range(0.5, 0.95),
+            l1: g.range(60.0, 300.0),
+            n1: g.pick(&[512usize, 256, 1024, 2048, 4096]),
+            l2: g.range(60.0, 300.0),
+            n2: g.pick(&[1024usize, 512, 256, 2048, 4096]),
+        },
+        2 => PlanarKind::Temperature,
+        _ => PlanarKind::Pdgt { tau: g.range(0.5, 0.95) },
+    };
+    PlanarCase { spec, kind }
+}
+
+/// surface tension (reduced, K/A^2) of a planar interface solved with the default solver
+/// followed by Newton; None if the solve fails or the interface left the box
+fn gamma_of(model: &Arc<Model>, tc: f64, tau: f64, n: usize, l: f64) -> Result<(f64, Profile), String> {
+    let vle = pure_vle(model, tau * tc)?;
+    let p = PlanarInterface::from_tanh(&vle, n, l * ANGSTROM, tc * KELVIN, false)
+        .solve(None)
+        .map_err(|e| format!("solve: {e}"))?;
+    let p = p.clone().solve(newton_chain(1e-12).build().as_ref()).unwrap_or(p);
+    let g = p.surface_tension.map(|g| g.to_reduced()).unwrap_or(f64::NAN);
+    if !g.is_finite() {
+        return Err("gamma not finite".into());
+    }
+    let r = p.profile.density.to_reduced();
+    let nn = r.shape()[1];
+    let (rl, rv) = (vle.liquid().density.to_reduced(), vle.vapor().density.to_reduced());
+    if !((r[[0, 0]] / rl - 1.0).abs() < 0.02 && (r[[0, nn - 1]] / rv - 1.0).abs() < 0.02) {
+        return Err("interface lost".into());
+    }
+    Ok((g, p.profile))
+}
+
+/// pDGT is a gradient approximation: measured |gamma_pdgt/gamma_dft - 1| <= 4.7 % (PC-SAFT,
+/// SAFT-VRQ Mie) and a smooth universal curve for PeTS that reaches 9.8 % at T/Tc = 0.5
+/// (DESIGN assumed 8 % from propane and water); an implementation error (factor 2 under the
+/// square root, a missing contribution to the influence parameter) changes the value by > 30 %.
+const PDGT_TOL: f64 = 0.15;
+/// `solve_pdgt` returns Ok(NaN) when the excess grand potential density is slightly negative
+/// at an end point (sqrt of a negative number, pdgt.rs:203)
+pub const PDGT_NAN: &str = "C19/pdgt-nan";
+
+/// largest grid spacing (in units of the smallest segment diameter) for which the size /
+/// resolution clause is asserted
+const MAX_DZ_SIGMA: f64 = 0.5;
+/// smallest (distance to the wall)/(90-10 width)
+const MIN_WALL_RATIO: f64 = 3.0;
+
+fn sigma_min(spec: &ModelSpec, model: &Arc<Model>) -> f64 {
+    let _ = spec;
+    use feos_dft::adsorption::FluidParameters;
+    model.sigma_ff().iter().cloned().fold(f64::INFINITY, f64::min)
+}
+
+pub fn check_planar(case: &PlanarCase, obs: &mut Obs) {
+    let spec = &case.spec;
+    obs.class(spec.label());
+    let model = match spec.build() {
+        Ok(m) => m,
+        Err(e) => return obs.discard(format!("build:{}", e.chars().take(30).collect::<String>())),
+    };
+    let tc = match dft_tc(spec, &model, 0) {
+        Ok(t) => t,
+        Err(e) => return obs.discard(format!("tc:{e}")),
+    };
+    match &case.kind {
+        PlanarKind::Size { tau, l1, n1, l2, n2 } => {
+            obs.class("size");
+            let sig = sigma_min(spec, &model);
+            let (a, b) = match (gamma_of(&model, tc, *tau, *n1, *l1), gamma_of(&model, tc, *tau, *n2, *l2)) {
+                (Ok(a), Ok(b)) => (a, b),
+                (Err(e), _) | (_, Err(e)) => return obs.discard(format!("solve:{}", e.chars().take(24).collect::<String>())),
+            };
+            let dz = (l1 / *n1 as f64).max(l2 / *n2 as f64) / sig;
+            let wr = wall_ratio(&a.1).min(wall_ratio(&b.1));
+            worst(
+                if dz <= MAX_DZ_SIGMA && wr >= MIN_WALL_RATIO { "size: |dgamma|/gamma (asserted domain)" } else { "size: |dgamma|/gamma (outside)" },
+                rel(a.0, b.0),
+            );
+            if debug() {
+                eprintln!("DBG size rel={:.3e} dz/sigma={dz:.3} wall_ratio={wr:.2} tau={tau} l=({l1:.0},{l2:.0}) n=({n1},{n2})", rel(a.0, b.0));
+            }
+            if dz > MAX_DZ_SIGMA {
+                obs.class("size: grid coarser than 0.5 sigma (not asserted)");
+                return;
+            }
+            if wr < MIN_WALL_RATIO {
+                obs.class("size: interface closer than 3 widths to a wall (not asserted)");
+                return;
+            }
+            obs.close("surface tension independent of box length and resolution", a.0, b.0, 1e-3, 0.0);
+            if (l1 / l2 - 1.0).abs() > 0.1 || n1 != n2 {
+                obs.nontrivial();
+            }
+        }
+        PlanarKind::Temperature => {
+            obs.class("temperature");
+            let taus = [0.5, 0.59, 0.68, 0.77, 0.86, 0.95];
+            let mut g = vec![];
+            for tau in taus {
+                // wide interfaces near T_c need a long box
+                match gamma_of(&model, tc, tau, 1024, if tau > 0.9 { 300.0 } else { 150.0 }) {
+                    Ok((v, _)) => g.push(v),
+                    Err(e) => return obs.discard(format!("solve:{}", e.chars().take(24).collect::<String>())),
+                }
+            }
+            for k in 1..g.len() {
+                obs.ensure(g[k] < g[k - 1] && g[k] > 0.0, || {
+                    format!("surface tension not strictly decreasing / positive: gamma({}) = {:e}, gamma({}) = {:e}", taus[k - 1], g[k - 1], taus[k], g[k])
+                });
+            }
+            match gamma_of(&model, tc, 0.97, 2048, 600.0) {
+                Ok((v, _)) => {
+                    worst("gamma(0.97 Tc)/gamma(0.5 Tc)", v / g[0]);
+                    obs.ensure(v > 0.0 && v / g[0] < 0.1, || format!("gamma(0.97 Tc)/gamma(0.5 Tc) = {:e}", v / g[0]));
+                    obs.nontrivial();
+                }
+                Err(e) => obs.class(format!("0.97 Tc: {}", e.chars().take(24).collect::<String>())),
+            }
+        }
+        PlanarKind::Pdgt { tau } => {
+            obs.class("pdgt");
+            let vle = match pure_vle(&model, tau * tc) {
+                Ok(v) => v,
+                Err(e) => return obs.discard(format!("vle:{}", e.chars().take(24).collect::<String>())),
+            };
+            let gp = match model.solve_pdgt(&vle, 198, 0, None) {
+                Ok((_, g)) => g.to_reduced(),
+                Err(e) => return obs.discard(format!("pdgt:{}", e.to_string().chars().take(24).collect::<String>())),
+            };
+            let l = if *tau > 0.9 { 300.0 } else { 150.0 };
+            let gd = match gamma_of(&model, tc, *tau, 2048, l) {
+                Ok((g, p)) if wall_ratio(&p) >= MIN_WALL_RATIO => g,
+                Ok(_) => return obs.discard("interface too close to the wall"),
+                Err(e) => return obs.discard(format!("solve:{}", e.chars().take(24).collect::<String>())),
+            };
+            obs.class(if spec.has_association() { "assoc" } else { "non-assoc" });
+            obs.class(if spec.has_polar() { "polar" } else { "non-polar" });
+            worst(
+                &format!("pdgt[{}{}]: |gamma_pdgt/gamma_dft - 1|", spec.label(), if spec.has_association() { ",assoc" } else if spec.has_polar() { ",polar" } else { "" }),
+                (gp / gd - 1.0).abs(),
+            );
+            if debug() {
+                eprintln!("DBG pdgt {} tau={tau} ratio={:.4} gp={gp:e} gd={gd:e} assoc={} polar={}", spec.label(), gp / gd, spec.has_association(), spec.has_polar());
+            }
+            obs.count();
+            if !gp.is_finite() {
+                // signature of PDGT_NAN: solve_pdgt returns Ok with a NaN surface tension
+                obs.known_or_fail(PDGT_NAN, format!("solve_pdgt returns Ok with surface tension {gp} (DFT: {gd:e}) at T/Tc = {tau}"));
+            } else {
+                obs.ensure((gp / gd - 1.0).abs() < PDGT_TOL, || {
+                    format!("pDGT surface tension {gp:e} vs DFT {gd:e} (ratio {:.4})", gp / gd)
+                });
+                obs.nontrivial();
+            }
+        }
+    }
+}
+
+// ---------------------------------------------------------------------------------------
+const PART_PORE: PartCfg = PartCfg { name: "pore", genome_len: 140, cases_quick: 128, cases_thorough: 12800, panic: PanicPolicy::Count };
+const PART_HENRY: PartCfg = PartCfg { name: "henry", genome_len: 140, cases_quick: 96, cases_thorough: 9600, panic: PanicPolicy::Count };
+const PART_PLANAR: PartCfg = PartCfg { name: "planar", genome_len: 120, cases_quick: 64, cases_thorough: 6400, panic: PanicPolicy::Count };
+
+pub fn run(ctx: &Ctx) {
+    ctx.set_rule("pore: proptest genomes -> (PeTS / PC-SAFT / gc-PC-SAFT (acyclic, <= 6 segments) / SAFT-VRQ Mie functional, 1-2 components) x (slit / cylinder / sphere; LJ93 / Steele / HardWall / SimpleLJ93 (slit); size 8-60 A; 256-1024 points) x T/Tc in [0.6,1.5] x bulk density = [0.05,0.6] x saturated vapour density (0.3 critical density above Tc) x relative step {5e-4,1e-3,2e-3}; the reference profile and 4 neighbours per direction (mu_k for every component, p, T) are solved with Newton to 1e-13 from the reference density. Non-trivial: at least 3 conclusive comparisons and an excess adsorption above 10 % of N. henry: (spherical or heterosegmented functional, 1-2 components) x pore x T/Tc in [0.6,1.5] at a bulk density chosen so that the Boltzmann-enhanced density stays below 1e-9..1e-7 x 1e-3/A^3. planar: pure functionals; two boxes (60-300 A, 256-4096 points) at T/Tc in [0.5,0.95]; gamma(T) on 6 temperatures + 0.97 Tc; pDGT (198 points) vs DFT. Distinct by hash of the canonical case JSON.");
+    ctx.assume("finite differences: central differences with steps h and h/2, Richardson value, step-size error estimate |d(h/2)-d(h)|/3 must be below 0.2 x rtol x scale (else inconclusive); violation iff |analytic - numeric| > 2e-4 x scale + 10 x error estimate (measured <= 3.7e-6 on non-dilute profiles); neighbours are accepted only if the second difference of N is below 20 % of the first (no capillary condensation between them)");
+    ctx.assume("chemical potential differences are taken from the bulk states: mu_i = T ln rho_i + mu_res,i (C01/C02 validate mu_res)");
+    ctx.assume("Henry limit: rtol 1e-4 (DESIGN); ideal-gas enthalpy of adsorption: Ridders derivative of ln(H T), 1e-5 relative + 50 x Ridders error");
+    ctx.assume("planar: surface tension independent of (L, n) within 1e-3 (measured 3e-7) asserted when the grid spacing is <= 0.5 sigma and the interface is at least 3 widths (90-10) from both walls; pDGT within 15 % of DFT (measured: <= 4.7 % PC-SAFT / SAFT-VRQ Mie, PeTS 3.6 % at 0.77 Tc rising smoothly to 9.8 % at 0.5 Tc)");
+    ctx.run_sampled(&PART_PORE, &gen_pore_case, &check_pore);
+    ctx.run_sampled(&PART_HENRY, &gen_henry_case, &check_henry);
+    ctx.run_sampled(&PART_PLANAR, &gen_planar_case, &check_planar);
+    ctx.extra("measured_worst", worst_json());
+}
+
+pub fn replay(ctx: &Ctx, part: &str, case: &Value) -> bool {
+    match part {
+        "pore" => ctx.replay_case::<PoreCase>(case, &check_pore),
+        "henry" => ctx.replay_case::<HenryCase>(case, &check_henry),
+        _ => ctx.replay_case::<PlanarCase>(case, &check_planar),
+    }
+}
+
+#[allow(dead_code)]
+fn _unused(_: GeomSpec, _: WallSpec) {}
